@@ -308,6 +308,12 @@ def mk_app(f, args=(), kw=()):
                 return Const(_fold_binop(f, a.v, b.v))
             except Exception:
                 pass
+        if f == "Mod" and isinstance(a, Const) and a.v == "%0*x" and isinstance(b, TupleV) and len(b.items) == 2:
+            wd, val = b.items                            # "%0*x" % (2*W, v)
+            if is_app(wd, "Mult") and Const(2) in wd.args:
+                return App("hexw", (val, wd.args[0] if wd.args[1] == Const(2) else wd.args[1]))
+            if isinstance(wd, Const) and isinstance(wd.v, int) and wd.v % 2 == 0:
+                return App("hexw", (val, Const(wd.v // 2)))
         if f == "Mod" and (ty_of(a) in ("str", "bytes")):
             w = _hex_width(a)
             if w is not None and not isinstance(b, TupleV):
@@ -351,6 +357,10 @@ def mk_app(f, args=(), kw=()):
                 return Const(f != "Eq")
             if a._key > b._key:
                 args = (b, a)
+        if f == "Gt":
+            return App("Lt", (b, a))                  # one spelling per ordering: a > b is b < a
+        if f == "GtE":
+            return App("LtE", (b, a))
         return App(f, args)
     if f in ("Is", "IsNot") and n == 2:
         a, b = args
@@ -600,6 +610,15 @@ def mk_app(f, args=(), kw=()):
                 x, y = sorted(a.items, key=lambda t: t._key)
                 return TupleV([App("min2", (x, y)), App("max2", (x, y))], "list")
         return App(f, args)
+    if f in ("min", "max", "min2", "max2") and n == 2 and not kw and all(isinstance(a, Const) for a in args):
+        try:
+            return Const(min(args[0].v, args[1].v) if f.startswith("min") else max(args[0].v, args[1].v))
+        except Exception:
+            pass
+    if f in ("max", "max2") and n == 2 and not kw and any(a == Const(1) for a in args) and \
+            any(isinstance(a, App) and a.f == "bit_length" for a in args):
+        bl = [a for a in args if isinstance(a, App) and a.f == "bit_length"][0]
+        return mk_app("Or", (bl, Const(1)))                # bit_length >= 0: max(b, 1) == (b or 1)
     if f in ("min", "max", "min2", "max2") and n == 2 and not kw:
         x, y = sorted(args, key=lambda t: t._key)
         if x == y:
@@ -774,6 +793,49 @@ def subst(t, mapping, memo=None):
         r = t
     memo[k] = r
     return r
+
+
+def order_facts(conds):
+    """From path conditions [(term, polarity), ...] collect the ordering facts between pairs of
+    terms: {(a._key, b._key): (a, b)} meaning a <= b is known, 'strict' ones in a second dict.
+    Returns (le, is_order) where is_order(term) tells whether a condition is such a comparison."""
+    le = {}
+    for (t, pol) in conds:
+        if not (isinstance(t, App) and t.f in ("Lt", "LtE", "Gt", "GtE") and len(t.args) == 2):
+            continue
+        a, b = t.args
+        f = t.f
+        if not pol:
+            f = {"Lt": "GtE", "GtE": "Lt", "Gt": "LtE", "LtE": "Gt"}[f]
+        if f in ("Lt", "LtE"):
+            le[(a._key, b._key)] = (a, b)
+        else:
+            le[(b._key, a._key)] = (b, a)
+    return le
+
+
+def is_order_cond(t, operands=None):
+    """Is t an ordering comparison (<, <=, >, >=) of two terms (optionally: both among `operands`)?"""
+    if not (isinstance(t, App) and t.f in ("Lt", "LtE", "Gt", "GtE") and len(t.args) == 2):
+        return False
+    return operands is None or all(any(a == o for o in operands) for a in t.args)
+
+
+def resolve_order(t, conds):
+    """Rewrite min2(a, b) / max2(a, b) inside t to the operand the path conditions select
+    (a finite set of orderings: on a path where a <= b is known, min is a and max is b)."""
+    le = order_facts(conds)
+    if not le:
+        return t
+    mapping = {}
+    for x in subterms(t):
+        if isinstance(x, App) and x.f in ("min2", "max2") and len(x.args) == 2:
+            a, b = x.args
+            if (a._key, b._key) in le:
+                mapping[x] = a if x.f == "min2" else b
+            elif (b._key, a._key) in le:
+                mapping[x] = b if x.f == "min2" else a
+    return subst(t, mapping) if mapping else t
 
 
 def show(t, depth=0, maxdepth=12):
